@@ -71,9 +71,9 @@ Fixpoint run14_pb (self : id) (ids : list (N * N * N)) (legacy : list nat) (gap 
       let now := k_now t in
       admitted
       (* in the table and answered within the last 15 minutes: still in the table *)
-      && forallb (fun e : nat * Z => if (now - snd e <=? 900000)%Z then in_dump (fst e) (k_table t) else true) last'
+      && forallb (fun e : nat * Z => if (now - snd e <? 900000)%Z then in_dump (fst e) (k_table t) else true) last'
       (* the same for the signed-peers table *)
-      && forallb (fun e : nat * Z => if (now - snd e <=? 900000)%Z then in_dump (fst e) (k_signed t) else true) lastS'
+      && forallb (fun e : nat * Z => if (now - snd e <? 900000)%Z then in_dump (fst e) (k_signed t) else true) lastS'
       (* silent for more than 15 + 5 minutes (+ the longest pause between iterations): gone *)
       && forallb (fun e : nat * Z => if (900000 + 300000 + gap <? now - snd e)%Z then negb (in_dump (fst e) (k_table t)) else true) last'
       (* only peers that answered are ever in the table *)
